@@ -165,11 +165,17 @@ def judge_collection(case):
     fails = []
     d = _work()
     paths = []
+    fstyle = case.get('file_style', 'c{n:03d}.mos.xml')
     for n, doc in enumerate(docs):
-        p = os.path.join(d, f'c{n:03d}.mos.xml')
+        p = os.path.join(d, fstyle.format(n=n))
         with open(p, 'wb') as f:
             f.write(doc.encode('utf-8'))
         paths.append(p)
+        if fstyle != 'c{n:03d}.mos.xml':
+            # siblings that the file name would match if it were read as a shell pattern
+            for sib in (f'c{n}.mos.xml', f'cx{n}.mos.xml', f'c[{n}]x.mos.xml'):
+                with open(os.path.join(d, sib), 'wb') as f:
+                    f.write(b'<mos><mosID>x</mosID><messageID>1</messageID><roDelete><roID>sibling</roID></roDelete></mos>')
     style = case.get('key_style', 'pre/c{n:03d}.mos.xml')
     objs = {style.format(n=n): doc.encode('utf-8') for n, doc in enumerate(docs)}
     objs['pre/readme.txt'] = b'not a mos file'
@@ -199,7 +205,9 @@ def judge_collection(case):
 
 def judge_listing(case):
     keys, prefix, suffix, page = case['keys'], case['prefix'], case['suffix'], case['page_size']
-    fake = fakes3.FakeS3({'b': {k: b'x' for k in keys}, 'other': {'zzz.mos.xml': b'x'}}, page_size=page)
+    # (a third of the objects are zero bytes long: the listing is about names, not about content)
+    fake = fakes3.FakeS3({'b': {k: (b'' if h64(k) % 3 == 0 else b'x') for k in keys}, 'other': {'zzz.mos.xml': b'x'}},
+                         page_size=page)
     pfx = prefix or ''
     sfx = suffix if suffix is not None else '.mos.xml'
     exp = [k for k in sorted(keys, key=lambda k: k.encode('utf-8')) if k.startswith(pfx) and k.endswith(sfx)]
@@ -324,7 +332,8 @@ def shard(args):
             c = draw(colgen.collection(min_msgs=1, max_msgs=6, faults='some', rich=True))
             return {'docs': c['docs'], 'page_size': draw(st.integers(1, 4)),
                     'order': list(draw(gen.permutation(range(len(c['docs']))))) if draw(st.booleans()) else None,
-                    'key_style': draw(st.sampled_from(KEY_STYLES))}
+                    'key_style': draw(st.sampled_from(KEY_STYLES)),
+                    'file_style': draw(st.sampled_from(['c{n:03d}.mos.xml'] * 3 + ['c[{n}].mos.xml', 'c?{n}.mos.xml', 'c*{n}.mos.xml']))}
 
         def three(case):
             col.record(case, True, ['constructors-agree'] + (['s3-keys-with-+-%-space'] if case['key_style'] != KEY_STYLES[0] else []),
